@@ -545,7 +545,7 @@ class Normaliser(object):
         env = self.env_of(edge.src)
         if env and (mentions(edge.src.ast) & set(env)):
             expr = subst(edge.src.ast, env)
-            if isinstance(expr, (ast.BoolOp, ast.UnaryOp)):
+            if isinstance(expr, (ast.BoolOp, ast.UnaryOp, ast.IfExp)):
                 # a local holding a compound condition: the outcome
                 # establishes a conjunction of atoms, or one of several
                 form = self._formula(expr, edge.kind == 'true')
@@ -571,15 +571,19 @@ class Normaliser(object):
             for part in form[1]:
                 out.extend(self._flatten(part))
             return out
+        # a disjunction: one 'anyof' atom whose alternatives are the
+        # conjunctions of atoms of its disjuncts
         alts = []
         ment = set()
         for part in form[1]:
-            sub = self._flatten(part)
-            if len(sub) != 1:
+            sub = [a for a in self._flatten(part) if a.key[0] != 'anyof']
+            if not sub:
                 return []
-            alts.append(sub[0])
-            ment |= set(sub[0].mentions)
-        keys = tuple(sorted((a.key for a in alts), key=repr))
+            alts.append(sub)
+            for atom in sub:
+                ment |= set(atom.mentions)
+        keys = tuple(sorted((tuple(sorted((a.key for a in alt), key=repr))
+                             for alt in alts), key=repr))
         atom = Atom(('anyof', keys), frozenset(ment))
         _ANYOF[atom.key] = alts
         return [atom]
@@ -589,15 +593,43 @@ class Normaliser(object):
         ('atom', Atom) in negation normal form."""
         return self._formula(expr, True)
 
+    @staticmethod
+    def _combine(kind, parts):
+        """and/or with constant folding: ('and', []) is true, ('or', [])
+        is false."""
+        out = []
+        for part in parts:
+            if part[0] in ('and', 'or') and not part[1]:
+                is_true = part[0] == 'and'
+                if kind == 'and' and not is_true:
+                    return ('or', [])
+                if kind == 'or' and is_true:
+                    return ('and', [])
+                continue
+            out.append(part)
+        if len(out) == 1:
+            return out[0]
+        return (kind, out)
+
     def _formula(self, expr, pos):
         if isinstance(expr, ast.UnaryOp) and isinstance(expr.op, ast.Not):
             return self._formula(expr.operand, not pos)
+        if isinstance(expr, ast.Constant):
+            return ('and', []) if bool(expr.value) == pos else ('or', [])
+        if isinstance(expr, ast.IfExp):
+            # A if T else B  ==  (T and A) or (not T and B)
+            #            not  ==  (T and not A) or (not T and not B)
+            return self._combine('or', [
+                self._combine('and', [self._formula(expr.test, True),
+                                      self._formula(expr.body, pos)]),
+                self._combine('and', [self._formula(expr.test, False),
+                                      self._formula(expr.orelse, pos)])])
         if isinstance(expr, ast.BoolOp):
             is_and = isinstance(expr.op, ast.And)
             if not pos:
                 is_and = not is_and
             parts = [self._formula(v, pos) for v in expr.values]
-            return ('and' if is_and else 'or', parts)
+            return self._combine('and' if is_and else 'or', parts)
         atom = self.atom(expr)
         return ('atom', atom if pos else negate(atom))
 
@@ -633,7 +665,8 @@ _ANYOF = {}
 
 
 def alternatives(atom):
-    """The alternative atoms of an 'anyof' atom."""
+    """The alternatives of an 'anyof' atom: a list of conjunctions (lists
+    of atoms), one of which holds."""
     return _ANYOF.get(atom.key, [])
 
 
@@ -683,7 +716,8 @@ def show(atom):
     if kind == 'vec':
         return '%s(%s %s %s)' % (key[1], key[3], key[2], key[4])
     if kind == 'anyof':
-        return ' or '.join(show(a) for a in alternatives(atom))
+        return ' or '.join('(%s)' % ' and '.join(show(a) for a in alt)
+                           for alt in alternatives(atom))
     return repr(key)
 
 
